@@ -51,6 +51,14 @@ CLAIMS = {
          "For every schedule: the lock-order graph computed from all 9 acquisition sites (guard regions from acquisition to drop/move, callee and closure summaries) contains only shard -> torrent edges (no torrent -> shard, no shard -> shard, no torrent -> torrent), and no blocking call (recv, sleep, join, poll, std locks) is made under a guard - this decides deadlock freedom w.r.t. these locks. Lost-announce window: the cleaner drops a permitted torrent only on paths with (Arc::get_mut is Some or strong_count == 1) AND is_empty, in a retain over the shard write guard. Region obligations: Arc clone / entry() under the shard guard, swarm mutation under torrent.write, PeerMap methods lock-free.",
          "Trusted: parking_lot semantics, Arc::get_mut. Not decided: linearizability of multi-torrent scrapes (each torrent is read atomically; the set is not).",
          "DESIGN.md section 2, C04"),
+ "C01": ("exhaustive path/effect analysis of the UDP peer storage (ordering, key origin, counter coherence, closed-world mutators), evaluated as siblings with the HTTP copy",
+         "Necessary conditions on every enumerated path of PeerMap::announce (180 paths) and the storage helpers: status table; remove < count < extract < insert on one representation arm with the single key (source ip, announced port); reply counters are .0/.1 of the post-removal accessor; stopped never inserts, everything else exactly once with is_seeder = (status == Seeding); Small->Large exactly when full and inserting; cached seeder counter moves +1/-1 exactly with the affected peer's flag and has a closed set of writers; representation switches are lossless at the ArrayVec capacity; scrape and announce use the same accessors.",
+         "Not decided: that these local facts compose into equivalence with a reference tracker over all histories (IndexMap/ArrayVec semantics, arithmetic of counts).",
+         "DESIGN.md section 2, C01"),
+ "C07": ("sibling evaluation of the C01 obligations on the HTTP storage + scrape and cleaning path tables",
+         "Same obligations as C01 on the HTTP near-clone (an asymmetric edit of one copy fails one property and not the other), plus: scrape iterates take(min(len, max_scrape_torrents)) of the request order into a BTreeMap with zeros for unknown torrents; the torrent retain closure drops forbidden torrents first and keeps a torrent iff clean_and_get_num_peers(now) > 0 for its representation.",
+         "Not decided: history equivalence as for C01.",
+         "DESIGN.md section 2, C07"),
 }
 
 PENDING_REASON = "check under construction in this build phase (static rules designed in DESIGN.md section 2); not claimed until its rule set is validated both ways"
